@@ -227,17 +227,33 @@ impl Check for C08 {
     fn cases(&self, tier: Tier) -> u64 {
         match tier {
             Tier::Quick => 480,
-            Tier::Thorough => 10000,
+            Tier::Thorough => 12000,
         }
     }
     fn gen(&self, seed: u64, i: u64, tier: Tier) -> Value {
         let r = Rng::new(crate::harness::case_seed(seed, "C08", i));
         let setups = Setup::all_basic();
-        let setup = setups[(i % setups.len() as u64) as usize].clone();
+        let mut setup = setups[(i % setups.len() as u64) as usize].clone();
+        // thorough: two passes over all ordered pairs of change classes, once through the CLI
+        // and once through the build-script path, both with the standalone configuration
+        // file (the one format in which every configuration change class is expressible)
+        let n_cl = (EDIT_CLASSES.len() + CONFIG_CHANGES.len() + DELETABLE.len() + TAMPERS.len()) as u64;
+        let pair_pass: Option<u64> = if tier == Tier::Thorough && i < 2 * n_cl * n_cl { Some(i / (n_cl * n_cl)) } else { None };
+        if let Some(pass) = pair_pass {
+            setup = setups[if pass == 0 { 2 } else { 7 }].clone(); // Cli/App/Standalone, Build/App/Standalone
+        }
         let mut gp = GenParams::swarm(&mut r.split("params"));
         gp.n_files = gp.n_files.min(4);
         gp.n_types = gp.n_types.max(2);
         gp.n_events = gp.n_events.max(1);
+        if pair_pass.is_some() {
+            // rich enough that most classes find an eligible item
+            gp.n_types = gp.n_types.max(4);
+            gp.n_cmds = gp.n_cmds.max(3);
+            gp.n_events = gp.n_events.max(2);
+            gp.channels = true;
+            gp.n_files = gp.n_files.max(2);
+        }
         gp.named_pct = 70;
         gp.validators = true;
         gp.serde_attrs = (i / 8) % 2 == 0;
@@ -263,8 +279,11 @@ impl Check for C08 {
         }
         // thorough: the first |classes|^2 cases walk through EVERY ordered pair of change
         // classes (as far as the generated project has an eligible item for both)
-        let n_cl = classes.len() as u64;
-        let pair: Option<(usize, usize)> = if tier == Tier::Thorough && i < n_cl * n_cl { Some(((i / n_cl) as usize, (i % n_cl) as usize)) } else { None };
+        debug_assert_eq!(n_cl, classes.len() as u64);
+        let pair: Option<(usize, usize)> = pair_pass.map(|_| {
+            let j = i % (n_cl * n_cl);
+            ((j / n_cl) as usize, (j % n_cl) as usize)
+        });
         let n_changes = match (pair, sr.below(10)) {
             (Some(_), _) => 2,
             (None, 0..=4) => 1,
